@@ -248,6 +248,37 @@ def check(rep):
                     lines.append('c04.split %d %s' % (chan_max, wire.hexs(encoded)))
                 expect.append('n=%d %s' % (len(slices), ','.join(show_slice(p) for p in slices) if slices else '-'))
                 meta.append({'split': label, **replay})
+    # text the declared codec cannot represent: nothing may go out that announces the codec over other bytes (the only
+    # message that satisfies the property does not exist, so publish has to refuse and write nothing)
+    rc = RecConn(4096)
+    ch = rc.channel(1)
+    for codec, text in (('latin-1', 'price 5 €'), ('ascii', 'grüße'), ('cp1252', '漢字'), ('latin-1', 'a' * 5000 + '€'), ('ascii', '€')):
+        for via in ('basic', 'message', 'message-setter'):
+            from amqpstorm import Message
+            rc.written.clear()
+            outcome = 'returned'
+            try:
+                if via == 'basic':
+                    ch.basic.publish(text, 'rk', '', properties={'content_encoding': codec})
+                elif via == 'message':
+                    Message.create(ch, text, {'content_encoding': codec}).publish('rk')
+                else:
+                    mo = Message.create(ch, text, {'content_type': 'text/plain'})
+                    mo.content_encoding = codec
+                    mo.publish('rk')
+            except UnicodeError:
+                outcome = 'refused'
+            except Exception as why:   # noqa
+                outcome = type(why).__name__
+            replay = {'kind': 'unrepresentable-text', 'codec': codec, 'text': text, 'via': via, 'srv_frame_max': 4096, 'body_len': len(text)}
+            rep.case(('unrepresentable', codec, text[-12:], via), True, sample=replay)
+            rep.count('published_via', via + '/unrepresentable')
+            if rc.written:
+                cid, frames = rc.written[-1]
+                sent = b''.join(f.value for f in frames[2:])
+                announced = getattr(frames[1].properties, 'content_encoding', None) if len(frames) > 1 else None
+                rep.violation('C04/text-not-in-announced-encoding', 'publishing %r with content_encoding %r (%s) %s and emitted a message announcing '
+                              '%r whose body is %r' % (text[-12:], codec, via, outcome, announced, sent[-16:]), replay)
     # direct kernel correspondence on _create_content_body with arbitrary (also odd) max_frame_size values
     from amqpstorm.basic import Basic
     for _ in range(300 if not thorough else 3000):
@@ -301,6 +332,17 @@ def replay(data):
         print('reference broker:', out['broker_violations'][:2])
         print('VIOLATION reproduced' if out['broker_violations'] else 'property holds on this input')
         return 1 if out['broker_violations'] else 0
+    if r.get('kind') == 'unrepresentable-text':
+        rc = RecConn(4096)
+        ch = rc.channel(1)
+        try:
+            ch.basic.publish(r['text'], 'rk', '', properties={'content_encoding': r['codec']})
+            print('publish returned')
+        except UnicodeError as why:
+            print('publish refused: %r' % why)
+        print('frames written: %d' % sum(len(f) for _, f in rc.written))
+        print('VIOLATION reproduced' if rc.written else 'property holds on this input')
+        return 1 if rc.written else 0
     rc = RecConn(r['srv_frame_max'])
     ch = rc.channel(1)
     body = bytes.fromhex(r['body_hex']) if r.get('body_hex') is not None else bytes([r['body_byte'] or 0]) * r['body_len']
